@@ -370,6 +370,19 @@ func ruleDiagsReachResult(id string) func(*Checker) {
 			if cell == nil {
 				continue
 			}
+			// inside a loop the result only grows: what is stored there is built on what was there
+			for _, st := range storesTo(fn, cell) {
+				if !reaches(st.Block(), st.Block()) {
+					continue
+				}
+				grows := false
+				for w := range p.backSlice(st.Val, 0) {
+					if ld, ok := w.(*ssa.UnOp); ok && ld.Op == token.MUL && ld.X == ssa.Value(cell) {
+						grows = true
+					}
+				}
+				c.check(grows, id, p.FuncName(fn), "result grows inside the loop", p.Pos(st.Pos()), "the value stored is built from the result's previous value", "inside a loop the Diagnostics result is assigned a value that does not include what it held (`diags = step()` instead of `diags = append(diags, step()...)`): every further round discards what earlier rounds reported, an error among it does not disable the builder, and the bundle is written without the failed package")
+			}
 			fam := []*ssa.Function{fn}
 			for i := 0; i < len(fam); i++ {
 				fam = append(fam, fam[i].AnonFuncs...)
@@ -1992,4 +2005,314 @@ func pkgPathOf(p *Prog, fn *ssa.Function) string {
 		break
 	}
 	return ""
+}
+
+// ---- round 12 ----
+
+// ruleHashAfterWalk — the directory name is the checksum of what is kept.
+func ruleHashAfterWalk(id string) func(*Checker) {
+	return func(c *Checker) {
+		c.rule(id, "In the package-ensuring function every checksum of the work directory (dirhash.HashDir) is taken behind the ok edge of the preparation walk over that directory: the directory name — and through it the manifest and the bundle's checksum — is a function of the files that stay in the bundle. Taken before the walk it also covers what the ignore rules are about to delete (.git, .terraform, the package's own exclusions): two packages with identical bundle content get different directories, and the names depend on bytes that are not in the bundle.", 1)
+		p := c.P
+		fn, fetch := ensureFunc(p)
+		if fn == nil {
+			c.anchorMissing(id, "the function calling PackageFetcher.FetchSourcePackage")
+			return
+		}
+		workDir := fetch.Call.Args[len(fetch.Call.Args)-1]
+		var walkOK []Edge
+		for _, ci := range callsTo(fn, func(o *types.Func) bool { return isFunc(o, "path/filepath", "Walk") || isFunc(o, "path/filepath", "WalkDir") }) {
+			cl, ok := ci.(*ssa.Call)
+			if !ok || canon(cl.Call.Args[0]) != canon(workDir) {
+				continue
+			}
+			okE, _ := okEdgesOfCall(cl)
+			walkOK = append(walkOK, okE...)
+		}
+		n := 0
+		for _, g := range sortedFuncs(p.family(fn)) {
+			for _, ci := range callsIn(g) {
+				cl, ok := ci.(*ssa.Call)
+				if !ok {
+					continue
+				}
+				o := calleeObj(cl)
+				if o == nil || o.Name() != "HashDir" || !strings.HasSuffix(objPkgPath(o), "dirhash") {
+					continue
+				}
+				n++
+				okh := g == fn && len(walkOK) > 0 && guarded(cl.Block(), walkOK)
+				if g != fn {
+					// in a helper: every call of the helper from the ensuring function lies behind the walk
+					sites := 0
+					okh = true
+					for _, site := range p.callersOf(g) {
+						if site.Parent() != fn {
+							continue
+						}
+						sites++
+						if len(walkOK) == 0 || !guarded(site.Block(), walkOK) {
+							okh = false
+						}
+					}
+					okh = okh && sites > 0
+				}
+				c.check(okh, id, p.FuncName(g), "checksum taken after the preparation walk", p.Pos(cl.Pos()), "behind the ok edge of filepath.Walk over the work directory", "the content checksum that names the package directory is computed before the preparation walk has removed what the ignore rules exclude: packages that are identical in the bundle get different directories, and directory names, manifest and bundle checksum depend on files that are not in the bundle")
+			}
+		}
+		c.check(n > 0, id, p.FuncName(fn), "content checksum found", p.Pos(fn.Pos()), fmt.Sprintf("%d HashDir call(s)", n), "no dirhash.HashDir call in the package-ensuring function or its helpers")
+	}
+}
+
+// ruleDirNameAsWritten — the manifest's directory name is judged as written.
+func ruleDirNameAsWritten(id string) func(*Checker) {
+	return func(c *Checker) {
+		c.rule(id, "In OpenDir the package directory name that is tested (valid path, not \".\", no separator) and stored is the manifest's LocalDir run through filepath.ToSlash and nothing else: a lexical normalisation on the way (path.Clean, filepath.Clean, Base, Join, Rel, TrimSuffix/TrimRight/Trim…) makes the tests look at another string than the manifest says — \"pkg/\", \"./pkg\", \"x/../pkg\" clean to a single segment and are accepted although they contain a separator.", 1)
+		c.absence(id)
+		p := c.P
+		open := p.Fn(bundlePkg, "OpenDir")
+		if open == nil {
+			c.anchorMissing(id, "OpenDir")
+			return
+		}
+		n := 0
+		for _, fn := range sortedFuncs(p.reach(open)) {
+			if !inBundlePkg(p, fn) {
+				continue
+			}
+			eachInstr(fn, func(in ssa.Instruction) {
+				mu, ok := in.(*ssa.MapUpdate)
+				if !ok || !isStringType(mu.Value.Type()) {
+					return
+				}
+				// follow the string itself back to the manifest field (not the memory it was decoded from)
+				fromLocalDir := false
+				var bad []string
+				seenV := map[ssa.Value]bool{}
+				var back func(v ssa.Value, depth int)
+				back = func(v ssa.Value, depth int) {
+					if v == nil || depth > 14 || seenV[v] {
+						return
+					}
+					seenV[v] = true
+					switch x := v.(type) {
+					case *ssa.Phi:
+						for _, e := range x.Edges {
+							back(e, depth+1)
+						}
+					case *ssa.Extract:
+						back(x.Tuple, depth+1)
+					case *ssa.Field:
+						if f := fieldOf(x); f != nil && f.Name() == "LocalDir" {
+							fromLocalDir = true
+						}
+					case *ssa.UnOp:
+						if x.Op != token.MUL {
+							return
+						}
+						switch a := x.X.(type) {
+						case *ssa.FieldAddr:
+							if f := fieldOf(a); f != nil && f.Name() == "LocalDir" {
+								fromLocalDir = true
+							}
+						case *ssa.Alloc:
+							for _, st := range storesTo(a.Parent(), a) {
+								back(st.Val, depth+1)
+							}
+						}
+					case *ssa.Parameter:
+						// into the callers' arguments
+						g := x.Parent()
+						for pi, prm := range g.Params {
+							if prm != x {
+								continue
+							}
+							for _, site := range p.callersOf(g) {
+								if args := site.Common().Args; pi < len(args) {
+									back(args[pi], depth+1)
+								}
+							}
+						}
+					case *ssa.Call:
+						o := calleeObj(x)
+						if g := x.Common().StaticCallee(); g != nil && p.InModule(g) {
+							for _, r := range returnsOf(g) {
+								for ri := range r.Results {
+									if isStringType(r.Results[ri].Type()) {
+										for _, rv := range returnValues(r, ri) {
+											back(rv, depth+1)
+										}
+									}
+								}
+							}
+							return
+						}
+						if o != nil && o.Pkg() != nil {
+							switch o.Pkg().Path() {
+							case "path", "path/filepath":
+								if o.Name() != "ToSlash" {
+									bad = append(bad, o.Pkg().Name()+"."+o.Name())
+								}
+							case "strings":
+								if strings.HasPrefix(o.Name(), "Trim") || o.Name() == "Replace" || o.Name() == "ReplaceAll" || o.Name() == "ToLower" || o.Name() == "Map" {
+									bad = append(bad, "strings."+o.Name())
+								}
+							}
+						}
+						for _, a := range x.Call.Args {
+							if isStringType(a.Type()) {
+								back(a, depth+1)
+							}
+						}
+					case *ssa.BinOp:
+						back(x.X, depth+1)
+						back(x.Y, depth+1)
+					case *ssa.Slice:
+						back(x.X, depth+1)
+					case *ssa.Convert:
+						back(x.X, depth+1)
+					case *ssa.ChangeType:
+						back(x.X, depth+1)
+					}
+				}
+				back(mu.Value, 0)
+				if !fromLocalDir {
+					return
+				}
+				n++
+				sort.Strings(bad)
+				c.check(len(bad) == 0, id, p.FuncName(fn), "directory name stored as the manifest wrote it", p.Pos(mu.Pos()), "LocalDir through filepath.ToSlash only", "the package directory name is normalised ("+strings.Join(uniq(bad), ", ")+") before it is tested and stored: a name with a separator that cleans to one segment — pkg/, ./pkg, x/../pkg — is accepted")
+			})
+		}
+		c.check(n > 0, id, p.FuncName(open), "directory table written from LocalDir", p.Pos(open.Pos()), fmt.Sprintf("%d store(s)", n), "no store of a manifest LocalDir into the bundle's directory table found")
+	}
+}
+
+// ruleResolverGetsDiskPath — the link resolver is asked about the file that is there.
+func ruleResolverGetsDiskPath(id string) func(*Checker) {
+	return func(c *Checker) {
+		c.rule(id, "Where the Pack walk asks the resolver (the function that reads the link with os.Readlink) what an out-of-tree link leads to, the location it passes is the walk callback's own path parameter — where the link is on disk. Inside a dereferenced directory the position in the archive (dst joined with the relative path) is another place: a relative target resolved from there names a neighbour of the source tree, whose content is packed in place of the link's.", 1)
+		p := c.P
+		pc := getPackCtx(c, id)
+		if pc == nil {
+			return
+		}
+		n := 0
+		for _, w := range pc.Walks {
+			fn := w.Fn
+			if len(fn.Params) == 0 {
+				continue
+			}
+			pathParam := fn.Params[0]
+			for _, ci := range callsIn(fn) {
+				cl, ok := ci.(*ssa.Call)
+				if !ok {
+					continue
+				}
+				g := cl.Common().StaticCallee()
+				if g == nil || !p.InModule(g) {
+					continue
+				}
+				// which parameter of g reaches os.Readlink (directly or through one more helper)?
+				for i := range cl.Call.Args {
+					if i >= len(g.Params) || !isStringType(g.Params[i].Type()) || !paramReadAsLink(p, g, i, 2) {
+						continue
+					}
+					n++
+					c.check(canon(cl.Call.Args[i]) == ssa.Value(pathParam), id, p.FuncName(fn), "resolver asked about the walked path ("+p.FuncName(g)+")", p.Pos(cl.Pos()), "the argument is the callback's path parameter", "the link resolver is handed another location than the walked path (the position in the archive, a joined or rewritten path): inside a dereferenced directory a relative target is then resolved from the wrong place")
+				}
+			}
+		}
+		c.check(n > 0, id, "-", "resolver call in the walk", "-", fmt.Sprintf("%d call(s)", n), "no call from the Pack walk to a function that reads links found")
+	}
+}
+
+// paramReadAsLink: the i-th parameter of g is the path g hands to os.Readlink, itself or through helpers.
+func paramReadAsLink(p *Prog, g *ssa.Function, i int, depth int) bool {
+	if g == nil || i >= len(g.Params) {
+		return false
+	}
+	prm := g.Params[i]
+	for _, ci := range callsIn(g) {
+		cl, ok := ci.(*ssa.Call)
+		if !ok {
+			continue
+		}
+		if isFunc(calleeObj(cl), "os", "Readlink") {
+			a := canon(cl.Call.Args[0])
+			if a == ssa.Value(prm) {
+				return true
+			}
+			// the chain followed in a loop: the variable starts as the parameter
+			if ph, ok := a.(*ssa.Phi); ok {
+				for _, e := range ph.Edges {
+					if canon(e) == ssa.Value(prm) {
+						return true
+					}
+				}
+			}
+			continue
+		}
+		h := cl.Common().StaticCallee()
+		if h == nil || !p.InModule(h) || depth == 0 || h == g {
+			continue
+		}
+		for j, a := range cl.Call.Args {
+			if canon(a) == ssa.Value(prm) && paramReadAsLink(p, h, j, depth-1) {
+				return true
+			}
+		}
+	}
+	return false
+}
+
+// ruleTypePrefixAfterSplit — the source type is looked for in the package part.
+func ruleTypePrefixAfterSplit(id string) func(*Checker) {
+	return func(c *Checker) {
+		c.rule(id, "In the remote-source parser the pattern that recognises the \"type::\" prefix is applied to the package part, i.e. to what the sub-path splitter returned first — never to the whole address: the pattern's `.` does not match a line feed, which a sub-path may contain, so applied to the whole address it fails to see the prefix of `git::https://host/repo.git//a\\nb`, an address the printer produces.", 1)
+		p := c.P
+		parse := p.Fn(addrPkg, "ParseRemoteSource")
+		if parse == nil {
+			c.anchorMissing(id, "ParseRemoteSource")
+			return
+		}
+		n := 0
+		for _, fn := range sortedFuncs(p.family(parse)) {
+			for _, ci := range callsIn(fn) {
+				cl, ok := ci.(*ssa.Call)
+				if !ok {
+					continue
+				}
+				o := calleeObj(cl)
+				if !(isMethod(o, "regexp", "Regexp", "FindStringSubmatch") || isMethod(o, "regexp", "Regexp", "MatchString") || isMethod(o, "regexp", "Regexp", "FindStringSubmatchIndex")) {
+					continue
+				}
+				// the receiver is the package-level pattern with "::" in it
+				isType := false
+				for w := range p.backSlice(cl.Call.Args[0], 0) {
+					if g, ok := w.(*ssa.Global); ok && strings.Contains(strings.ToLower(g.Name()), "type") {
+						isType = true
+					}
+				}
+				if !isType {
+					continue
+				}
+				n++
+				afterSplit := false
+				for w := range p.backSlice(cl.Call.Args[1], 2) {
+					ex, ok := w.(*ssa.Extract)
+					if !ok || ex.Index != 0 {
+						continue
+					}
+					if sc, ok := ex.Tuple.(*ssa.Call); ok {
+						if g := sc.Common().StaticCallee(); g != nil && p.InModule(g) && strings.Contains(strings.ToLower(g.Name()), "subpath") {
+							afterSplit = true
+						}
+					}
+				}
+				c.check(afterSplit, id, p.FuncName(fn), "type prefix looked for in the package part", p.Pos(cl.Pos()), "the matched text is the first result of the sub-path splitter", "the type prefix is looked for in the whole address, sub-path included: a sub-path with a line feed hides the prefix, and an address the library itself prints is refused")
+			}
+		}
+		c.check(n > 0, id, p.FuncName(parse), "type pattern applied", p.Pos(parse.Pos()), fmt.Sprintf("%d match(es)", n), "the remote-source parser no longer applies a type-prefix pattern")
+	}
 }
